@@ -182,6 +182,9 @@ func linMain(args []string) int {
 					cn := names[r.Intn(len(names))]
 					c := caches[cn]
 					op := ops[r.Intn(len(ops))]
+					if cn != "rescan" && r.Intn(12) == 0 {
+						op = "Configure" // with the options it has: a new cache, i.e. scanned (and the watcher restarted)
+					}
 					if cn == "manual" && r.Intn(3) == 0 {
 						op = "Refresh" // otherwise the manual cache hardly ever moves
 					}
@@ -223,6 +226,8 @@ func linMain(args []string) int {
 						}
 					case "GetErrors":
 						_ = c.GetErrors()
+					case "Configure":
+						_ = c.Configure(cdi.WithAutoRefresh(cn == "auto"))
 					}
 					n := log.add(linEvent{E: "ret", T: t, V: v})
 					if n >= *nevents {
@@ -234,7 +239,31 @@ func linMain(args []string) int {
 				}
 			}(cl, cf.seed*7919+int64(tr)*131+int64(cl))
 		}
-		wg.Wait()
+		// watchdog: the log not growing for 20 s while the clients are still at it = stall (a lock never released)
+		fin := make(chan struct{})
+		go func() { wg.Wait(); close(fin) }()
+		stalled := false
+		for last, lastT := -1, time.Now(); !stalled; {
+			select {
+			case <-fin:
+			case <-time.After(500 * time.Millisecond):
+				log.mu.Lock()
+				n := len(log.evs)
+				log.mu.Unlock()
+				if n != last {
+					last, lastT = n, time.Now()
+				} else if time.Since(lastT) > 20*time.Second {
+					stalled = true
+				}
+				continue
+			}
+			break
+		}
+		if stalled {
+			col.add(Mismatch{Case: tr, Step: -1, Props: []string{"C12"}, What: "stall", Note: "no call returned for 20 s during the linearizability recording"})
+			col.finish(start)
+			os.Exit(1)
+		}
 		for _, c := range caches {
 			_ = c.Configure(cdi.WithAutoRefresh(false))
 		}
